@@ -29,7 +29,7 @@ def flatten(node, acc):
 def body(c):
     rng = random.Random(c.seed)
     # 1. the specification: arithmetic invariants + nesting machine
-    consts = dict(OsCpus=OSCPUS, Affinities={1, 2, 3, OSCPUS}, EnvVals={0, 1, 2, 3, 64}, Backends={"threading", "loky", "multiprocessing", "sequential"}, MaxDepth=3, Gen=False)
+    consts = dict(OsCpus=OSCPUS, Affinities={1, 2, 3, OSCPUS}, EnvVals={0, 1, 2, 3, 64}, Backends={"threading", "loky", "multiprocessing", "sequential"}, MaxDepth=3, Gen=False, QuotaHalves={0, 3, 4, 8, 64})
     path = os.path.join(common.VERIF, "out", "cfg", "NJ_mc.cfg")
     tlc.write_cfg(path, constants=consts, init="Init", next="Next", invariants=["NoNestedProcesses", "CpuAtLeastOne", "EffectiveAtLeastOne", "Honours"])
     c.model_check("NJobs[table + nesting depth 3]", "NJobs", path, workers=8, timeout=600)
@@ -41,26 +41,26 @@ def body(c):
     base = common.scratch("c15")
     # 2. arithmetic under real affinity masks and LOKY_MAX_CPU_COUNT
     groups = collections.defaultdict(list)
-    for row in rows: groups[(row["aff"], row["env"])].append(row)
-    jobs = [(base, "t_%d_%d" % k, {"mode": "table", "aff": k[0], "env": k[1], "rows": [[x["backend"], x["n"]] for x in g]}) for k, g in groups.items()]
+    for row in rows: groups[(row["aff"], row["env"], row["quota"])].append(row)
+    jobs = [(base, "t_%d_%d_%d" % k, {"mode": "table", "aff": k[0], "env": k[1], "quota": k[2], "rows": [[x["backend"], x["n"]] for x in g]}) for k, g in groups.items()]
     with ThreadPoolExecutor(max_workers=14) as ex:
         res = list(ex.map(lambda a: run_worker(*a), jobs))
     for (b, nm, job), r in zip(jobs, res):
-        g = groups[(job["aff"], job["env"])]
+        g = groups[(job["aff"], job["env"], job["quota"])]
         if "error" in r: raise RuntimeError("table worker: " + r["error"])
         if r["cpu_count"] != g[0]["cpus"]:
-            c.violation({"kind": "cpu_count", "affinity": job["aff"], "LOKY_MAX_CPU_COUNT": job["env"], "got": r["cpu_count"]},
-                        "C15: cpu_count() = %d with %d usable CPUs (affinity) and LOKY_MAX_CPU_COUNT=%s; specification: %d" % (r["cpu_count"], job["aff"], job["env"] or "unset", g[0]["cpus"]), {})
+            c.violation({"kind": "cpu_count", "affinity": job["aff"], "LOKY_MAX_CPU_COUNT": job["env"], "cgroup_quota_cpus": job["quota"] / 2, "got": r["cpu_count"]},
+                        "C15: cpu_count() = %d with %d usable CPUs (affinity), LOKY_MAX_CPU_COUNT=%s and a control-group quota of %s CPUs; specification: %d" % (r["cpu_count"], job["aff"], job["env"] or "unset", job["quota"] / 2 or "no", g[0]["cpus"]), {})
         # the count of physical cores cannot exceed the usable CPUs either (NJobs.tla: CpuAtLeastOne / Honours apply to it as an upper bound)
         ph = r.get("cpu_count_physical")
         if ph is not None and not (1 <= ph <= g[0]["cpus"]):
             c.violation({"kind": "cpu_count_physical", "affinity": job["aff"], "LOKY_MAX_CPU_COUNT": job["env"], "got": ph},
                         "C15: cpu_count(only_physical_cores=True) = %d with %d usable CPUs (affinity %d, LOKY_MAX_CPU_COUNT=%s)" % (ph, g[0]["cpus"], job["aff"], job["env"] or "unset"), {})
         for x, got in zip(g, r["rows"]):
-            c.evaluations += 1; c.nontrivial.add(("table", x["aff"], x["env"], x["backend"], x["n"]))
+            c.evaluations += 1; c.nontrivial.add(("table", x["aff"], x["env"], x["quota"], x["backend"], x["n"]))
             want = x["res"]
             if got[0] != want[0] or (want[0] == "ok" and (got[1] != want[1] or got[2] != want[1])):
-                c.violation({"kind": "effective_n_jobs", "backend": x["backend"], "n_jobs": x["n"], "affinity": x["aff"], "LOKY_MAX_CPU_COUNT": x["env"], "got": got},
+                c.violation({"kind": "effective_n_jobs", "backend": x["backend"], "n_jobs": x["n"], "affinity": x["aff"], "LOKY_MAX_CPU_COUNT": x["env"], "cgroup_quota_cpus": x["quota"] / 2, "got": got},
                             "C15: n_jobs=%d on %s with cpu_count()=%d resolves to %s, specification: %s" % (x["n"], x["backend"], x["cpus"], got, want), {})
     # 2b. the same rows while the mask and the variable CHANGE inside one process (nothing about the CPUs may be remembered)
     orders = [[OSCPUS, 2, 3, 1, OSCPUS], [3, OSCPUS, 1, 2], [1, 3, 2, OSCPUS]]
@@ -69,7 +69,7 @@ def body(c):
     for affs, evs in zip(orders, envs):
         steps = []
         for a, e in zip(affs, evs):
-            g = groups[(a, e)]
+            g = groups[(a, e, 0)]
             sub = g if not c.quick else [x for x in g if x["n"] in (-1, -2, 1, 2)]
             steps.append({"aff": a, "env": e, "rows": [[x["backend"], x["n"]] for x in sub], "_g": sub})
         sj.append(steps)
@@ -111,7 +111,7 @@ def body(c):
     # 3b. histories of calls with different n_jobs in one process: ExecutorResize.tla (the reusable loky executor is resized between
     #     the calls) model-checked, its histories replayed with gated tasks on the three backends
     def er_cfg(name, gen=False, **k):
-        consts = dict(MaxW=3, NT=3, Calls=3, Timeouts=1, StopSurplus=True, WaitShrunk=True, Gen=gen); consts.update(k)
+        consts = dict(MaxW=3, NT=3, Calls=3, Timeouts=1, StopSurplus=True, WaitShrunk=True, RecordEarly=True, Gen=gen); consts.update(k)
         p = os.path.join(common.VERIF, "out", "cfg", "ER_%s.cfg" % name)
         if gen: tlc.write_cfg(p, constants=consts, init="Init", next="Next", constraint="Emit")
         else: tlc.write_cfg(p, constants=consts, spec="Spec", invariants=k.pop("_inv", None) or ["Bound", "SizeAtWork", "NoLostSentinel"], properties=["Ends"], view="View")
@@ -119,33 +119,41 @@ def body(c):
     c.model_check("ExecutorResize[3 workers, 3 calls, 1 idle timeout]", "ExecutorResize", er_cfg("mc"), workers=8, timeout=600)
     if not c.quick: c.model_check("ExecutorResize[4 workers, 4 calls]", "ExecutorResize", er_cfg("mc4", MaxW=4, Calls=4, NT=4, Timeouts=2), workers=16, timeout=900)
     p1 = os.path.join(common.VERIF, "out", "cfg", "ER_nostop.cfg")
-    tlc.write_cfg(p1, constants=dict(MaxW=3, NT=3, Calls=3, Timeouts=1, StopSurplus=False, WaitShrunk=True, Gen=False), spec="Spec", invariants=["Bound"], view="View")
+    tlc.write_cfg(p1, constants=dict(MaxW=3, NT=3, Calls=3, Timeouts=1, StopSurplus=False, WaitShrunk=True, RecordEarly=True, Gen=False), spec="Spec", invariants=["Bound"], view="View")
     r1 = c.model_check("ExecutorResize[surplus workers not stopped]", "ExecutorResize", p1, must_hold=False, workers=4, timeout=600)
     if r1.ok: raise tlc.TLCError("ExecutorResize lost its sensitivity: a shrink that does not stop the surplus workers must break Bound")
     p2 = os.path.join(common.VERIF, "out", "cfg", "ER_nowait.cfg")
-    tlc.write_cfg(p2, constants=dict(MaxW=3, NT=3, Calls=3, Timeouts=1, StopSurplus=True, WaitShrunk=False, Gen=False), spec="Spec", invariants=["SizeAtWork"], view="View")
+    tlc.write_cfg(p2, constants=dict(MaxW=3, NT=3, Calls=3, Timeouts=1, StopSurplus=True, WaitShrunk=False, RecordEarly=True, Gen=False), spec="Spec", invariants=["SizeAtWork"], view="View")
     r2 = c.model_check("ExecutorResize[no wait for the surplus workers]", "ExecutorResize", p2, must_hold=False, workers=4, timeout=600)
     if r2.ok: raise tlc.TLCError("ExecutorResize lost its sensitivity: not waiting for the surplus workers must break SizeAtWork")
+    p3 = os.path.join(common.VERIF, "out", "cfg", "ER_norecord.cfg")
+    tlc.write_cfg(p3, constants=dict(MaxW=3, NT=3, Calls=3, Timeouts=1, StopSurplus=True, WaitShrunk=True, RecordEarly=False, Gen=False), spec="Spec", invariants=["Bound"], view="View")
+    r3 = c.model_check("ExecutorResize[size not recorded for an executor without manager thread]", "ExecutorResize", p3, must_hold=False, workers=4, timeout=600)
+    if r3.ok: raise tlc.TLCError("ExecutorResize lost its sensitivity: forgetting the new size of an executor that has no manager thread yet must break Bound")
+    c.extra["resize_model_sensitivity_early"] = "size not recorded on the early return -> %s" % (r3.violated,)
     c.extra["resize_model_sensitivity"] = ["surplus workers not stopped -> %s" % (r1.violated,), "no wait for the surplus workers -> %s" % (r2.violated,)]
     r = tlc.run("ExecutorResize", er_cfg("gen", gen=True, Timeouts=0, NT=1), workers=1, timeout=600); c.add_tlc("ExecutorResize-gen[histories]", r)
-    hists = sorted({tuple(h) for h in tlc.printed_json(r)})
+    # a history = sequence of (n_jobs, tasks?): a call with tasks (gated) or a call that submits nothing (empty input)
+    hists = sorted({tuple((n, 1 if k else 0) for n, k in h) for h in tlc.printed_json(r)})
     c.extra["resize_histories"] = len(hists)
-    interesting = [h for h in hists if len(set(h)) >= 2]
-    if c.quick: interesting = [h for h in interesting if h in ((3, 1, 2), (1, 3, 1), (2, 3, 1), (3, 2, 3))]
+    T = lambda *ns: tuple((n, 1) for n in ns)
+    interesting = [h for h in hists if len({n for n, _ in h}) >= 2 and sum(k for _, k in h) >= 2]
+    if c.quick: interesting = [h for h in interesting if h in (T(3, 1, 2), T(1, 3, 1), T(2, 3, 1), T(3, 2, 3), ((3, 0), (2, 1), (3, 1)), ((2, 1), (3, 0), (2, 1)))]
     sj = []
     for backend in ("loky", "threading", "multiprocessing"):
         for h in interesting:
-            if backend != "loky" and c.quick and h not in ((3, 1, 2), (1, 3, 1)): continue
-            sj.append({"mode": "gate_seq", "backend": backend, "history": list(h), "ntasks": 6, "settle": 1.0 if backend == "threading" else 1.5})
+            if backend != "loky" and c.quick and h not in (T(3, 1, 2), T(1, 3, 1)): continue
+            sj.append({"mode": "gate_seq", "backend": backend, "history": [list(x) for x in h], "ntasks": 6, "settle": 1.0 if backend == "threading" else 1.5})
     # the resize path proper: with inner_max_num_threads fixed the executor arguments do not depend on n_jobs
-    for h in ([(3, 2, 3), (2, 3, 2)] if c.quick else [h for h in interesting if 1 not in h] + [(4, 2, 3, 2), (2, 4, 3, 4)]):
-        sj.append({"mode": "gate_seq", "backend": "loky", "history": list(h), "ntasks": 6, "settle": 1.5, "inner_threads": 1})
-    sj.append({"mode": "gate_seq", "backend": "loky", "history": [3, 1, 2], "ntasks": 6, "settle": 1.5, "same_object": True})
+    rs = [T(3, 2, 3), T(2, 3, 2), ((3, 0), (2, 1), (3, 1)), ((2, 1), (3, 0), (2, 1)), ((3, 0), (3, 0), (2, 1))]
+    for h in (rs if c.quick else [h for h in interesting if all(n > 1 for n, _ in h)] + rs[2:] + [T(4, 2, 3, 2), T(2, 4, 3, 4), ((4, 0), (2, 1), (3, 0), (2, 1))]):
+        sj.append({"mode": "gate_seq", "backend": "loky", "history": [list(x) for x in h], "ntasks": 6, "settle": 1.5, "inner_threads": 1})
+    sj.append({"mode": "gate_seq", "backend": "loky", "history": [[3, 1], [1, 1], [2, 1]], "ntasks": 6, "settle": 1.5, "same_object": True})
     for k, j in enumerate(sj): j["dir"] = os.path.join(base, "gs%d" % k)
     with ThreadPoolExecutor(max_workers=6) as ex:
         res = list(ex.map(lambda kj: run_worker(base, "gs%d" % kj[0], kj[1], timeout=600), enumerate(sj)))
     for j, r in zip(sj, res):
-        c.evaluations += 1; c.nontrivial.add(("gate_seq", j["backend"], tuple(j["history"]), bool(j.get("same_object"))))
+        c.evaluations += 1; c.nontrivial.add(("gate_seq", j["backend"], json.dumps(j["history"]), bool(j.get("same_object")), j.get("inner_threads")))
         if "error" in r: raise RuntimeError("gate_seq worker: %s %s" % (j, r["error"]))
         if j.get("inner_threads"):
             c.extra["resize_path_taken"] = c.extra.get("resize_path_taken", 0) + sum(1 for a, b in zip(r["calls"], r["calls"][1:]) if a.get("executor") == b.get("executor"))
@@ -193,7 +201,7 @@ def body(c):
     shutil.rmtree(base, ignore_errors=True)
     c.traces_validated = len(gj) + len(nj) + len(sj)
     c.exhaustive = True
-    c.rule = ("(a) every row of NJobs.tla's table: affinity mask size {1,2,3,all} x LOKY_MAX_CPU_COUNT {unset,1,2,3,64} x backend x n_jobs in [-2c, 2c] evaluated by the real "
+    c.rule = ("(a) every row of NJobs.tla's table: affinity mask size {1,2,3,all} x LOKY_MAX_CPU_COUNT {unset,1,2,3,64} x control-group CPU quota {none, 1.5, 2, 4, 32} x backend x n_jobs in [-2c, 2c] evaluated by the real "
               "cpu_count / effective_n_jobs under a real sched_setaffinity mask; (b) gated tasks on threading, loky, multiprocessing: tasks that start block until the "
               "number of started tasks is stable, the high-water mark must not exceed the resolved n_jobs; (b2) histories of such calls with different n_jobs in one process "
               "(generated from ExecutorResize.tla: the reused loky executor is resized, pools are rebuilt), the bound must hold in every call; (c) nested Parallel calls (depth 2-3, inner arguments "
